@@ -24,4 +24,3 @@ Definition q2_minverse_recip := minverse QIF Qc qi_nrm Qcmult Qc_ltb 0%Qc scale_
 
 Definition qi_isz (x : qi) : bool := qi_eqb x qi0.
 Definition q2_ls_solve := ls_solve QIF qi_isz.
-Definition q2_gj_inverse := gj_inverse QIF qi_isz.
